@@ -62,7 +62,8 @@ pub fn factorial_f64(x: f64, fl: &Flags) -> R<f64> {
     // reciprocal of the distance
     if x < 0.0 && !fl.scope_only.get() {
         let dist = (x - x.round()).abs();
-        if dist > 0.0 && (dist < 1e-7 || (fl.tol.get() > 0.0 && dist < 0.05)) { return Err(Stop::Unspec("FactorialNearPole")); }
+        // (relative band of 4e-6 |x|: the reflection formula rounds pi x, an error of |x| eps / dist in the result)
+        if dist > 0.0 && (dist < 1e-7 || dist < 4e-6 * x.abs() || (fl.tol.get() > 0.0 && dist < 0.05)) { return Err(Stop::Unspec("FactorialNearPole")); }
     }
     // Gamma amplifies the relative error of its argument by about x ln x
     if fl.tol.get() > 0.0 && !fl.scope_only.get() && !(x.abs() <= 30.0) { return Err(Stop::Unspec("ErrorAmplificationAfterInexactOperation")); }
@@ -206,6 +207,9 @@ impl Sem for F64Sem {
         match op {
             "neg" => Ok(-a),
             "fact" => factorial_f64(a, &self.flags),
+            // (a scope evaluation predicts the code's own intermediate values: it multiplies by the factors the parsers write down)
+            "deg" if self.flags.scope_only.get() => Ok(a * 0.017453292519943295),
+            "rad" if self.flags.scope_only.get() => Ok(a * 57.2957795131),
             "deg" => { self.flags.inexact(TOL); near_overflow(a * (std::f64::consts::PI / 180.0)) }
             "rad" => { self.flags.inexact(TOL); near_overflow(a * (180.0 / std::f64::consts::PI)) }
             "floor" => { at_discontinuity(&self.flags, a, "int")?; Ok(a.floor()) }
